@@ -195,6 +195,21 @@ func main() {
 			}
 		}
 	}
+	// boundary values of indices, written by hand: the first number past the legal range, and its neighbours
+	for _, c := range [][2]string{
+		{"boundaryIndex", "message M {\n\t256 -> int32 x;\n}\n"},
+		{"boundaryIndex", "message M {\n\t1 -> int32 a;\n\t256 -> int32 b;\n}\n"},
+		{"boundaryIndex", "message M {\n\t257 -> int32 x;\n}\n"},
+		{"boundaryIndex", "message M {\n\t65536 -> int32 x;\n}\n"},
+		{"boundaryIndex", "message M {\n\t4294967296 -> int32 x;\n}\n"},
+		{"boundaryIndex", "message M {\n\t0 -> int32 x;\n}\n"},
+		{"boundaryIndex", "union U {\n\t256 -> struct A {\n\t\tint32 x;\n\t}\n}\n"},
+		{"boundaryIndex", "union U {\n\t1 -> struct A {\n\t}\n\t257 -> message B {\n\t}\n}\n"},
+		{"boundaryIndex", "union U {\n\t1 -> message B {\n\t\t256 -> int32 x;\n\t}\n}\n"},
+		{"okBoundaryIndex", "message M {\n\t255 -> int32 x;\n\t1 -> int32 y;\n}\nunion U {\n\t255 -> struct A {\n\t}\n\t0 -> message B {\n\t\t255 -> int32 z;\n\t}\n}\n"},
+	} {
+		check(c[0], []byte(c[1]))
+	}
 	st.DistinctNontrivial = len(distinct)
 	res := map[string]interface{}{"engine": "semantic", "seed": *seed, "tier": *tier,
 		"stats": map[string]interface{}{"C13": st}, "failures": fails}
